@@ -2,6 +2,7 @@
 keep a program free of errors while changing addresses, forward distances and the order of statements.  The
 checks that use the golden corpus as their program domain (C16..C19) draw some of their programs from here and
 discard a variant whose reference run reports errors."""
+import re
 from . import corpus
 
 
@@ -43,3 +44,52 @@ def load(test, ops):
     t["ori"] = None
     t["variant"] = True
     return t
+
+
+NUM_RE = re.compile(rb"(?<![\w.$#'\"])(\$[0-9A-Fa-f]+|[0-9][0-9A-Fa-f]*[hH]|0x[0-9A-Fa-f]+|[0-9]+)(?![\w.'\"])")
+POOL = [0x20, 0x40, 0x44, 0x5f, 0x60, 0x7e, 0x7f, 0x80, 0xbf, 0xc0, 0xff, 0x100, 0x1ff, 0x7fff, 0x8000, 0xffff, 1, 2, 3]
+
+
+def lit_strategy(d):
+    """1-4 edits [which literal, how, value]"""
+    return [[d.int(0, 5000), d.weighted([(4, "pool"), (2, "inc"), (2, "dec"), (1, "dbl"), (1, "half")]),
+             d.choice(POOL)] for _ in range(d.weighted([(4, 1), (3, 2), (2, 3), (1, 4)]))]
+
+
+def perturb_literals(src, edits):
+    """replace numeric literals outside comments by other values in the same notation"""
+    lines = src.split(b"\n")
+    spots = []
+    for li, ln in enumerate(lines):
+        code = ln.split(b";", 1)[0]
+        if b"'" in code or b'"' in code:
+            continue
+        f = code.split(None, 1)
+        if len(f) < 2 and not code[:1].isspace():
+            continue
+        for m in NUM_RE.finditer(code):
+            if m.start() > 0 and code[:m.start()].strip():      # not a label / first field
+                spots.append((li, m.start(), m.end()))
+    if not spots:
+        return src
+    done = set()
+    for which, how, val in edits:
+        li, a, b = spots[which % len(spots)]
+        if li in done:
+            continue
+        done.add(li)
+        tok = lines[li][a:b]
+        try:
+            if tok.startswith(b"$"):
+                old, fmt = int(tok[1:], 16), "$%x"
+            elif tok[-1:] in b"hH":
+                old, fmt = int(tok[:-1], 16), "0%xh"
+            elif tok.lower().startswith(b"0x"):
+                old, fmt = int(tok[2:], 16), "0x%x"
+            else:
+                old, fmt = int(tok, 10), "%d"
+        except ValueError:
+            continue
+        new = {"pool": val, "inc": old + 1, "dec": max(0, old - 1), "dbl": old * 2, "half": old // 2}[how]
+        lines[li] = lines[li][:a] + (fmt % new).encode() + lines[li][b:]
+    return b"\n".join(lines)
